@@ -121,7 +121,7 @@ def timeRFC3339 (t : GoTime) : Option Bytes :=
     else
       let zone := (Int.tdiv off 60).natAbs
       if zone / 60 ≥ 24 then none
-      else some (base ++ frac ++ [if off < 0 then 45 else 43] ++ pad0 2 (zone / 60) ++ [58] ++ pad0 2 (zone % 60))
+      else some (base ++ frac ++ [if Int.tdiv off 60 < 0 then 45 else 43] ++ pad0 2 (zone / 60) ++ [58] ++ pad0 2 (zone % 60))
 
 /-! ## JSON pieces -/
 
